@@ -9,6 +9,7 @@ mod astutil;
 mod docgen;
 mod pipeline;
 mod srcgen;
+mod strings;
 
 use docgen::D;
 use pipeline::Verdict;
@@ -442,6 +443,9 @@ fn main() {
     let mut model = Model::spawn(opts.model.as_ref().expect("--model"));
     if !opts.has_flag("--no-layout") {
         part_layout(&mut ev, &mut model, &opts);
+    }
+    if !opts.has_flag("--no-strings") {
+        strings::part_strings(&mut ev, &mut model, &opts);
     }
     if !opts.has_flag("--no-pipeline") {
         part_pipeline(&mut ev, &opts);
